@@ -85,6 +85,9 @@ structure Cand where
   /-- header bits of the reply (TC, AA, QR, rcode …) as one word: carried so
   that the theorems quantify over them; `Exchange` never looks at them. -/
   hdr : Nat := 0
+  /-- the TC bit, which `dnsclient.Client.Exchange` (not `Conn.Exchange`) does look at:
+  a truncated datagram sends it to the stream leg. -/
+  tc : Bool := false
 deriving Repr, DecidableEq
 
 inductive XRes
@@ -143,6 +146,41 @@ def exchange (udp : Bool) (qid : Nat) (q : Option Question) (cands : List Cand) 
     match q with
     | none => (XRes.ok i, used)
     | some qq => if questionMatches qq c.qs then (XRes.ok i, used) else (XRes.errQuestion, used)
+
+/-- One leg of `dnsclient.Client.Exchange`: `Conn.Exchange` on that transport,
+then `toleratedQuestionMismatch`: only `ErrQuestion`, and only when the caller
+set `SkipQuestionCheck`, is tolerated (the reply is kept); every other error is
+fatal. `inl` = the error returned, `inr` = the reply accepted on this leg. -/
+def clientLeg (udp : Bool) (qid : Nat) (q : Option Question) (skipQuestion : Bool)
+    (cands : List Cand) : XRes ⊕ (Nat × Cand) :=
+  match pick udp qid cands with
+  | (Picked.readErr, _) => Sum.inl XRes.errRead
+  | (Picked.idErr, _) => Sum.inl XRes.errId
+  | (Picked.got i c, _) =>
+    match q with
+    | none => Sum.inr (i, c)
+    | some qq => if skipQuestion || questionMatches qq c.qs then Sum.inr (i, c) else Sum.inl XRes.errQuestion
+
+/-- Result of `Client.Exchange` with `Proto = "udp"`: the reply accepted and the leg it came on. -/
+inductive CliRes
+  | err (e : XRes)
+  | udp (idx : Nat)
+  | tcp (idx : Nat)
+deriving Repr, DecidableEq
+
+/-- `dnsclient.Client.Exchange` for a udp upstream: the datagram leg; a
+truncated accepted reply retries the same request over TCP **with the same
+client settings** (the same `SkipQuestionCheck`), and that leg's reply is final. -/
+def clientExchange (qid : Nat) (q : Option Question) (skipQuestion : Bool)
+    (udpCands tcpCands : List Cand) : CliRes :=
+  match clientLeg true qid q skipQuestion udpCands with
+  | Sum.inl e => CliRes.err e
+  | Sum.inr (i, c) =>
+    if c.tc then
+      match clientLeg false qid q skipQuestion tcpCands with
+      | Sum.inl e => CliRes.err e
+      | Sum.inr (j, _) => CliRes.tcp j
+    else CliRes.udp i
 
 /-- `dohExchange` + the guard of `Client.Exchange` for `Proto == "doh"`: one
 HTTP response body; RFC 8484 lets the server normalise the ID to 0, so the
@@ -498,6 +536,32 @@ def additionalAnswer (resolve : Str → SubResult) (qname : Str) (qtype : Nat) (
     | Scan.selfLoop => servFail []
     | Scan.target none => msg
     | Scan.target (some t) => chaseLoop resolve qname qtype 10 t msg
+
+/-! ### `Resolver.searchCache` (which cached zone's servers are asked) -/
+
+/-- The text of a name given by its labels (`.` for none). -/
+def nameText (l : Name) : Str := if l = [] then ['.'] else l.flatten
+
+/-- The upward walk of `searchCache`: the current name is looked up in the
+delegation cache (keys are case-insensitive); otherwise one label is dropped
+(`dns.NextLabel`), and a name of a single label that is not cached ends at the
+root servers (`[]`). -/
+def searchCacheWalk (cached : List Str) : Name → Name
+  | [] => []
+  | x :: t =>
+    if cached.contains (lower (nameText (x :: t))) then x :: t
+    else match t with
+      | [] => []
+      | _ :: _ => searchCacheWalk cached t
+
+/-- `searchCache(q, cd, origin)`: a DS question starts one label up (the parent
+side answers it); returns the labels of the zone whose servers are asked and
+the level `CompareSuffix(origin, zone)`. -/
+def searchCache (cached : List Str) (qname : Str) (isDS : Bool) : Name × Nat :=
+  let l := labelsOf qname
+  let start := if isDS then l.drop 1 else l
+  let found := searchCacheWalk cached start
+  (found, compareSuffix l found)
 
 /-! ### the level bookkeeping of the descent (`rs.level` vs `rs.servers.Zone`) -/
 
